@@ -1103,9 +1103,12 @@ def kde_model_oracle(kde, name, u64, variants=KDE_VARIANTS, count=None):
     width = upper - lower
     inner = (u64 > 1e-6) & (u64 < 1 - 1e-6)
     roots = np.full(len(u64), np.nan)
-    for i in np.nonzero(inner)[0]:
-        roots[i] = brentq(lambda x: float(kde.cumulative_distribution(np.array([x]))[0]) - u64[i], lower, upper,
-                          xtol=1e-14, rtol=4 * EPS, maxiter=500)
+    try:
+        for i in np.nonzero(inner)[0]:
+            roots[i] = brentq(lambda x: float(kde.cumulative_distribution(np.array([x]))[0]) - u64[i], lower, upper,
+                              xtol=1e-14, rtol=4 * EPS, maxiter=500)
+    except Exception as e:  # noqa
+        return [('model-bounds-do-not-bracket-its-cdf', {'dataset': name, 'bounds': [lower, upper], 'error': repr(e)[:160]})]
     with np.errstate(all='ignore'):
         pdf = np.asarray(kde.probability_density(np.where(inner, roots, lower)), dtype=float)
     scale = max(1.0, abs(lower), abs(upper))
@@ -1231,10 +1234,13 @@ def kde_history_oracle(A, B, u64, how, seed=0, count=None):
     out = []
     u = u64[(u64 > 1e-6) & (u64 < 1 - 1e-6)]
     inst = GaussianKDE()
-    inst.fit(A)
-    for method in ('chandrupatla', 'bisect'):
-        inst.percent_point(u.copy(), method=method)
-    _seeded(seed, lambda: inst.fit(B))
+    try:
+        inst.fit(A)
+        for method in ('chandrupatla', 'bisect'):
+            inst.percent_point(u.copy(), method=method)
+        _seeded(seed, lambda: inst.fit(B))
+    except Exception as e:  # noqa
+        return [('fresh-model-raises', {'history': how, 'raises': repr(e)[:160], 'phase': 'fit(A), percent_point, fit(B)'})]
     now = np.array(inst.to_dict()['dataset'], dtype=float).ravel()    # (a re-sampled data set is stored 1 x n)
     fresh = GaussianKDE()
     fresh.fit(now)
@@ -1271,7 +1277,12 @@ def kde_history_oracle(A, B, u64, how, seed=0, count=None):
         rl, ru = (float(v) for v in ref_model._get_bounds())
         for method in ('chandrupatla', 'bisect'):
             tol = (1e-8 if method == 'bisect' else 1e-9 * (ru - rl)) + 8 * EPS * max(1.0, abs(rl), abs(ru))
-            want = np.asarray(ref_model.percent_point(u.copy(), method=method), dtype=float)
+            try:
+                want = np.asarray(ref_model.percent_point(u.copy(), method=method), dtype=float)
+            except Exception as e:  # noqa
+                out.append((f'{method}:fresh-model-raises', {'history': how, 'state': state, 'raises': repr(e)[:120],
+                                                             'data_range': [rl, ru]}))
+                continue
             cls = (f'{method}:depends-on-fit-history' if state in ('refitted', 'restored-then-refitted')
                    else f'{method}:depends-on-state:{state}')
             try:
